@@ -1,7 +1,7 @@
 (* The theorems of property C06 about the model, for all histories. *)
 From Coq Require Import ZArith List Bool Arith Lia.
 From Common Require Import ListAux.
-From Str Require Import StrSpec StrModel StrLists StrInv StrPrims StrRefine StrFun StrStep StrJoin.
+From Str Require Import StrSpec StrModel StrLists StrInv StrPrims StrRefine StrFun StrStep StrJoin StrPlus.
 Import ListNotations.
 
 (* ---- one step ---- *)
@@ -64,6 +64,16 @@ Proof.
   - apply ex_split_set; auto.
   - apply ex_from_printf; auto.
   - apply ex_stat; auto.
+  - apply ex_pluseq_s; auto.
+  - apply ex_pluseq_c; auto.
+  - apply ex_plus; auto.
+  - apply ex_plus_lit; auto.
+  - apply ex_plus_assign; auto.
+  - apply ex_from_bool; auto.
+  - apply ex_from_cstr; auto.
+  - apply ex_from_cstr_n; auto.
+  - apply ex_to_bool; auto.
+  - apply ex_char; auto.
 Qed.
 
 Lemma step_refines w o : Inv w ->
@@ -166,7 +176,7 @@ Definition target (o : op) : option nat :=
   | OAttach v _ _ _ | OAssign v _ | OClear v | OResize v _ _ | OPoke v _ _
   | OAppendS v _ | OAppendB v _ | OAppendC v _ | OPrependS v _ | OPrependB v _
   | OReplaceC v _ _ | OReplaceS v _ _ | OLower v | OUpper v | OTrim v _ | OPrintf v _ | OJoin v _ _
-  | OAppendOwn v _ _ | OPrintfSelf v _ _ => Some v
+  | OAppendOwn v _ _ | OPrintfSelf v _ _ | OPlusEqS v _ | OPlusEqC v _ | OPlusAssign v _ _ => Some v
   | _ => None
   end.
 
@@ -271,7 +281,8 @@ Proof.
 Qed.
 
 (* ---- an argument that is the String itself behaves as a copy of it would ---- *)
-Inductive self_kind := SAssign | SAppend | SPrepend | SReplaceNeedle | SReplaceWith | SReplaceBoth.
+Inductive self_kind := SAssign | SAppend | SPrepend | SReplaceNeedle | SReplaceWith | SReplaceBoth
+                     | SPlusEq | SPlusLeft | SPlusRight | SPlusBoth.
 Definition self_op (k : self_kind) (v u x : nat) : op :=
   match k with
   | SAssign => OAssign v u
@@ -280,6 +291,10 @@ Definition self_op (k : self_kind) (v u x : nat) : op :=
   | SReplaceNeedle => OReplaceS v u x
   | SReplaceWith => OReplaceS v x u
   | SReplaceBoth => OReplaceS v u u
+  | SPlusEq => OPlusEqS v u                               (* s += s *)
+  | SPlusLeft => OPlusAssign v u x                        (* s = s + x *)
+  | SPlusRight => OPlusAssign v x u                       (* s = x + s *)
+  | SPlusBoth => OPlusAssign v u u                        (* s = s + s *)
   end.
 
 Lemma spec_self_as_copy k s v x : has s v = true -> has s x = true ->
@@ -320,6 +335,10 @@ Proof.
     repeat match goal with H : _ && _ = true |- _ => apply andb_true_iff in H; destruct H end.
     repeat match goal with H : cbytes _ = true |- _ => rewrite H end.
     cbn [andb]. rewrite DROP. reflexivity.
+  - rewrite (Hl v Hv), Ht. cbn [andb]. rewrite Vt, (Vv v Hv). rewrite DROP. reflexivity.
+  - rewrite (Hl v Hv), Ht, (Hl x Hx). cbn [andb]. rewrite Vt, (Vv x Hx). rewrite DROP. reflexivity.
+  - rewrite (Hl v Hv), Ht, (Hl x Hx). cbn [andb]. rewrite Vt, (Vv x Hx). rewrite DROP. reflexivity.
+  - rewrite (Hl v Hv), Ht. cbn [andb]. rewrite Vt. rewrite DROP. reflexivity.
 Qed.
 
 Theorem self_args_as_if_copied_thm : forall k w v x, Inv w ->
